@@ -389,6 +389,12 @@ impl MetaMonitor {
             }
             out.bucket("term_name_over_255_bytes");
         }
+        // ... and a fifth carry a term whose name is the empty string
+        if rng.chance(1, 5) {
+            let i = rng.usize_below(facts.terms.len());
+            facts.terms[i].name = String::new();
+            out.bucket("term_with_empty_name");
+        }
         let long_names = facts.terms.iter().any(|t| t.name.len() > 255);
         let view = jax_view(&facts);
         let transitive = idx % 2 == 1;
@@ -522,6 +528,12 @@ impl MetaMonitor {
         let mut facts = crate::gen::gen_facts(rng, &cfg);
         if family == 2 {
             jaxable(&mut facts);
+            // a quarter of the text cases describe an ontology without release version: the renderer then
+            // may leave out the header block of hp.obo altogether (the file starts with a [Term] stanza)
+            if rng.chance(1, 4) {
+                facts.version = (0, 0, 0);
+                out.bucket("text_files_without_release_version");
+            }
         }
         let path = match family {
             0 => {
